@@ -226,10 +226,6 @@ pub fn run(s: &Scn, ctx: &mut RunCtx) -> RunOutput {
                                 format!("call {}: AllAttemptsFailed at {}us with {}/{} attempts started; still running (done_at, will_succeed): {:?}", i, t.end_us, mine.len(), max, running),
                             );
                         } else {
-                            let tlast = comp.iter().map(|x| x.0).max().unwrap_or(0);
-                            if jump == 0 && t.end_us != tlast {
-                                world::violation("C12.resolves", "late_failure", format!("call {}: last attempt failed at {}us, caller told at {}us", i, tlast, t.end_us));
-                            }
                             world::probe("all_attempts_failed");
                         }
                         if let Some(e) = &o.inner {
